@@ -1,4 +1,4 @@
-CONSTANTS MaxLen = 7 Keys = {0, 5, 11, 43, 64, 77, 100, 127} BADCTR = FALSE
+CONSTANTS MaxLen = 7 Keys = {0, 5, 11, 43, 64, 77, 100, 127} LocalMax = 5 BADCTR = FALSE
 INIT Init
 NEXT Next
 INVARIANT Inv
